@@ -11,6 +11,8 @@ use tokio::net::TcpStream;
 
 mod listener;
 mod session;
+#[cfg(feature = "verif_hooks")]
+mod verif_tcp;
 
 pub(crate) use listener::Listener;
 pub(crate) use listener::ListenerMessage;
